@@ -5,6 +5,7 @@ from engine.rulelib import fnview
 from engine.cfg import render, strip_ref, peel, subexprs
 
 CRATES = ["lightning_signer"]
+OPTIONAL_CRATES = ["vls_persist"]
 LS = "lightning_signer::"
 SVT = LS + "policy::simple_validator::SimpleValidator"
 VAL = LS + "policy::validator::Validator"
@@ -44,6 +45,9 @@ def const(ctx, name):
     raise R.Broken(f"anchor missing: const {name}")
 
 
+CLAIM["text"] += (" (R5.7) restart clause, where the build has a persistence layer: every persisted field of channel entry, node "
+                  "state, tracker and monitors is serialised and restored into the same slot (same obligations as C11 R11.2).")
+
 def run(ctx):
     ctx.explanation = CLAIM["text"]
     ctx.not_decided = "inequalities at u64 overflow extremes beyond presence of checked arithmetic; weight formulas"
@@ -53,6 +57,7 @@ def run(ctx):
     r54(ctx)
     r55(ctx)
     r_content(ctx)
+    r_restore(ctx)
 
 
 def r51(ctx):
@@ -582,3 +587,8 @@ def r_content(ctx):
                     "builders forward balances, both HTLC lists and the feerate unmodified and CommitmentInfo2::new only sorts "
                     "(same obligations as the first part of C04 R4.3)")
     _c04.content_passthrough(ctx, rid="R5.6")
+
+
+def r_restore(ctx):
+    from rules import C11 as _c11
+    _c11.shared_restore(ctx, "R5.7", "the contest delays, commitment type and channel value that validate_setup_channel accepted, and the monitors' chain state the on-chain validator consults, are what a restarted signer enforces with.")
